@@ -249,6 +249,16 @@ def for_everyg():
                vars=['a', 'b'], colls={'coll': ('lterm', [a, NIL, b])}))
     t.append(T('for_lterm_empty', [('for', 'e', 'coll', [], [FALSE]), EQ(q, P(0))], 'multiset', vars=[], colls={'coll': ('lterm', [])}))
     t.append(T('for_shared_var', [EQ(q, a), ('for', 'e', 'coll', [a, a, P(0)], [NE(e, N(1))])], 'multiset', vars=['a'], colls={'coll': ('vec', [a, a, P(0)])}))
+    mem112 = REL('member', e, L(N(1), N(1), N(2)))
+    t.append(T('for_repeated_var_nondet_body', [EQ(q, a), ('for', 'e', 'coll', [a, a], [mem112])], 'multiset', 40, vars=['a'], colls={'coll': ('vec', [a, a])}))
+    t.append(T('for_repeated_ground_nondet_body', [EQ(q, P(0)), ('for', 'e', 'coll', [N(1), N(1)], [mem112])], 'multiset', 40, vars=[], colls={'coll': ('vec', [N(1), N(1)])}))
+    t.append(T('for_repeated_lterm_conde_body', [EQ(q, L(a, b)), EQ(a, b), ('for', 'e', 'coll', [a, b], [OP('conde', EQ(e, N(1)), EQ(e, N(1)), EQ(e, N(2)))])], 'multiset', 40, vars=['a', 'b'], colls={'coll': ('lterm', [a, b])}))
+    t.append(T('for_two_clause_body', [EQ(q, L(a, b)), ('for', 'e', 'coll', [a, b], [REL('member', e, L(N(1), N(2), N(3))), NE(e, N(2))])], 'multiset', 40, vars=['a', 'b'], colls={'coll': ('vec', [a, b])}))
+    t.append(T('for_two_clause_body_fail', [EQ(q, a), ('for', 'e', 'coll', [a], [EQ(e, N(1)), EQ(e, N(2))])], 'multiset', 40, vars=['a'], colls={'coll': ('vec', [a])}))
+    for n_ in (3, 5, 6, 7):
+        vs_ = [V('v%d' % i) for i in range(n_)]
+        t.append(T('for_len%d_all_constrained' % n_, [EQ(q, L(*vs_)), ('for', 'e', 'coll', vs_, [EQ(e, N(5))])], 'multiset', 40, vars=['v%d' % i for i in range(n_)], colls={'coll': ('vec', vs_)}))
+    t.append(T('for_len3_last_fails', [EQ(q, P(0)), ('for', 'e', 'coll', [N(1), N(1), N(2)], [EQ(e, N(1))])], 'multiset', 40, vars=[], colls={'coll': ('vec', [N(1), N(1), N(2)])}))
     t.append(T('for_ground_elems', [EQ(q, P(2)), ('for', 'e', 'coll', [P(0), P(1)], [NE(e, N(0))])], 'multiset', vars=[], colls={'coll': ('vec', [P(0), P(1)])}))
     return t
 
@@ -367,6 +377,11 @@ def reify_forms():
     t.append(T('reify_value_side_bound_later', [FRESH(['x', 'y'], EQ(q, L(x, y)), NE(x, L(P(0), y)), EQ(y, P(1)))], 'multiset'))
     t.append(T('reify_improper_tail', [FRESH(['x', 'y'], EQ(q, LI([P(0)], x)), NE(x, L(y)), NE(y, P(1)))], 'multiset'))
     t.append(T('reify_unrelated_constraint', [FRESH(['x', 'y'], EQ(q, x), NE(y, P(0)), NE(x, P(1)))], 'multiset'))
+    h_ = V('h')
+    t.append(T('reify_hidden_var_multi_pair', [FRESH(['x'], EQ(q, x), FRESH(['h'], NE(L(x, h_), L(P(0), P(1)))))], 'multiset'))
+    t.append(T('reify_hidden_var_multi_pair3', [FRESH(['x', 'y'], EQ(q, L(x, y)), FRESH(['h'], NE(L(x, h_, y), L(P(0), P(1), P(2))), NE(y, P(0))))], 'multiset'))
+    t.append(T('reify_open_list_tail', [FRESH(['t'], EQ(q, LI([P(0)], V('t'))), NE(V('t'), NIL))], 'multiset'))
+    t.append(T('reify_open_list_tail_nested', [FRESH(['t', 'h'], EQ(q, L(LI([h_], V('t')), P(0))), NE(V('t'), L(P(1))), NE(h_, P(0)))], 'multiset'))
     t.append(T('reify_pair_field', [FRESH(['x', 'y', 'z'], EQ(z, ('pair', x, y)), EQ(q, L(P(0), z)), NE(y, P(1)))], 'multiset'))
     t.append(T('reify_pair_top', [FRESH(['x', 'y'], EQ(q, ('pair', x, y)), NE(x, P(0)), EQ(y, L(x)))], 'multiset'))
     return t
@@ -386,6 +401,7 @@ def compounds():
     t.append(T('pair_diseq_ground', [FRESH(['z'], EQ(z, PR(P(0), P(1))), NE(z, PR(P(2), P(1))), EQ(q, P(0)))], 'multiset'))
     t.append(T('pair_fd_fields', [FRESH(['x', 'y'], EQ(q, PR(x, y)), INFDR(L(x, y), 0, 2), REL('ltfd', x, y))], 'multiset', 40))
     t.append(T('pair_fd_nested', [FRESH(['x', 'y', 'z', 'w'], EQ(z, PR(y, P(0))), EQ(w, PR(x, z)), EQ(q, L(w)), INFDR(L(x, y), 0, 1), REL('diseqfd', x, y))], 'multiset', 40))
+    t.append(T('pair_occurs_through_list_field', [FRESH(['x', 'y'], OP('conde', [EQ(y, L(P(1), x)), EQ(x, PR(P(0), y)), EQ(q, N(1))], [EQ(y, LI([P(1)], x)), EQ(PR(y, P(0)), x), EQ(q, N(2))], [EQ(y, L(P(1))), EQ(x, PR(P(0), y)), EQ(q, N(3))]))], 'multiset'))
     t.append(T('pair_in_list_reify', [FRESH(['x', 'y', 'z'], EQ(z, PR(x, y)), EQ(q, L(z, x)), EQ(y, P(0)))], 'multiset'))
     return t
 
@@ -422,6 +438,7 @@ def compound_structs():
     t.append(T('cs_diseq_types', [FRESH(['x'], EQ(q, x), NE(CMP('Leaf', x), CMP('Wrap', P(0))), NE(CMP('Leaf', x), CMP('Leaf', P(1))), OP('conde', EQ(x, P(0)), EQ(x, P(1))))], 'multiset'))
     t.append(T('cs_occurs', [FRESH(['x', 'y'], OP('conde', [EQ(x, CMP('Leaf', x)), EQ(q, N(1))], [EQ(x, CMP('Pt', P(0), y)), EQ(y, CMP('Leaf', x)), EQ(q, N(2))],
                                                      [EQ(x, CMP('Node', P(0), SOME(CMP('Leaf', x)))), EQ(q, N(3))], [EQ(x, CMP('Pt', y, y)), EQ(q, N(4))]))], 'multiset'))
+    t.append(T('cs_occurs_through_list_field', [FRESH(['x', 'y'], OP('conde', [EQ(y, L(P(1), x)), EQ(x, CMP('Wrap', y)), EQ(q, N(1))], [EQ(y, LI([P(1)], x)), EQ(CMP('Pt', P(0), y), x), EQ(q, N(2))], [EQ(y, L(x)), EQ(x, CMP('Pt', CMP('Leaf', y), P(0))), EQ(q, N(3))], [EQ(y, L(P(1))), EQ(x, CMP('Wrap', y)), EQ(q, N(4))]))], 'multiset'))
     t.append(T('cs_walk_star_nested', [FRESH(['x', 'y', 'z'], EQ(q, CMP('Pt', x, CMP('Leaf', y))), EQ(x, L(y, P(0))), EQ(y, CMP('Wrap', z)), EQ(z, P(1)))], 'multiset'))
     t.append(T('cs_walk_star_option', [FRESH(['x', 'y'], EQ(q, CMP('Node', x, SOME(CMP('Leaf', y)))), EQ(y, L(x)), EQ(x, P(0)))], 'multiset'))
     t.append(T('cs_reify_free_fields', [FRESH(['x', 'y'], EQ(q, CMP('Pt', x, CMP('Leaf', y))), NE(x, P(0)))], 'multiset'))
@@ -509,6 +526,11 @@ def _finite_domains():
     t.append(T('fd_exclude_resolves_member_param', [FRESH(['a', 'b'], EQ(q, ab), INFD(V('a'), [0, 2, 3]), INFDR(V('b'), 0, 3), REL('ltefd', V('b'), V('a')), REL('distinctfd', L(V('a'), V('b'), P(0), P(1))))], 'multiset', 40))
     t.append(T('fd_alias_then_narrow_to_singleton', [FRESH(['a', 'x', 'y'], EQ(q, L(x, y)), EQ(V('a'), x), REL('diseqfd', V('a'), y), INFD(y, [3]), INFD(x, [3, 4, 5]), INFD(x, [1, 2, 3]))], 'multiset', 40))
     t.append(T('fd_alias_lt_narrow', [FRESH(['a', 'x', 'y'], EQ(q, L(x, y)), EQ(V('a'), x), REL('ltfd', V('a'), y), INFDR(y, 0, 2), INFD(x, [2, 4]), INFDR(x, 0, 3))], 'multiset', 40))
+    t.append(T('fd_times_mixed_sign_const', [FRESH(['x', 'y'], EQ(q, L(x, y)), INFDR(L(x, y), -3, 3), REL('timesfd', x, y, P(0)))], 'multiset', 60))
+    t.append(T('fd_times_mixed_sign_asym', [FRESH(['x', 'y'], EQ(q, L(x, y)), INFDR(x, -2, 4), INFDR(y, -4, 1), REL('timesfd', x, y, N(-4)))], 'multiset', 60))
+    t.append(T('fd_nested_list_query_free', [FRESH(['x', 'y', 'z'], EQ(q, L(L(x, y), z)), INFDR(L(x, y, z), 0, 1))], 'multiset', 60))
+    t.append(T('fd_nested_list_query_sum', [FRESH(['s', 'x', 'y'], EQ(q, L(V('s'), L(x, y))), INFDR(L(x, y), 0, 2), INFDR(V('s'), 0, 4), REL('plusfd', x, y, V('s')), REL('ltefd', x, y))], 'multiset', 60))
+    t.append(T('fd_hidden_pigeonhole_backtrack', [FRESH(['a', 'b', 'c', 'd'], INFDR(q, 0, 1), INFD(V('a'), [0, 3]), INFDR(L(V('b'), V('c'), V('d')), 0, 2), REL('distinctfd', L(V('a'), V('b'), V('c'), V('d'))), REL('ltefd', q, V('a')))], 'multiset', 60))
     t.append(T('fd_list_query', [FRESH(['x', 'y'], EQ(q, L(L(x), y)), INFDR(L(x, y), 0, 1), REL('diseqfd', x, y))], 'multiset', 40))
     return t
 
@@ -524,6 +546,10 @@ def user_hooks():
     t.append(T('hooks_diseq_dropped', [FRESH(['x', 'b1', 'b2'], EQ(q, L(b1, b2)), NE(x, P(0)), NE(x, P(1)), pr(b1), EQ(x, P(2)), pr(b2))], 'multiset', **U))
     t.append(T('hooks_extension_sizes', [FRESH(['x', 'y', 'b1', 'b2', 'b3'], EQ(q, L(b1, b2, b3)), EQ(L(x, y), L(P(0), P(1))), pr(b1), EQ(x, P(2)), pr(b2), EQ(L(y, x), L(P(1), P(0))), pr(b3))], 'multiset', **U))
     t.append(T('hooks_extension_branches', [FRESH(['x', 'b1', 'b2'], EQ(q, L(x, b1, b2)), OP('conde', EQ(x, P(0)), EQ(x, P(1))), pr(b1), EQ(x, P(0)), pr(b2))], 'multiset', **U))
+    RB = dict(user='CntUser', reify_balance=True)
+    t.append(T('hooks_balance_after_reify_distinct', [FRESH(['x', 'y'], EQ(q, L(x, y)), INFD(L(x, y), [1, 2]), REL('distinctfd', L(x, y)))], 'multiset', 24, **RB))
+    t.append(T('hooks_balance_after_reify_mixed', [FRESH(['x', 'y', 'z'], EQ(q, L(x, z)), NE(z, P(0)), INFD(L(x, y), [1, 2]), REL('distinctfd', L(x, y)), EQ(x, N(1)))], 'multiset', 24, **RB))
+    t.append(T('hooks_balance_after_reify_diseq', [FRESH(['x', 'y'], EQ(q, L(x, y)), NE(x, P(0)), NE(L(x, y), L(P(1), P(2))), OP('conde', EQ(y, P(2)), TRUE))], 'multiset', 24, **RB))
     t.append(T('hooks_fd_cascade', [FRESH(['x', 'y', 'z', 'b1', 'b2'], EQ(q, L(b1, b2)), INFD(L(x, y, z), [1, 2]), REL('diseqfd', x, y), REL('diseqfd', x, z), pr(b1), EQ(x, N(1)), pr(b2))], 'multiset', **U))
     return t
 
